@@ -12,10 +12,10 @@ _CACHE = {}
 
 
 def _one(args):
-    root, cfgt, lexer_escapes = args
+    root, cfgt, triaged = args
     repo = Repo(root)
     cfg = tokproto.Config(*cfgt)
-    I = tokproto.Interp(repo, cfg, lexer_escapes=lexer_escapes)
+    I = tokproto.Interp(repo, cfg, triaged_keys=triaged)
     res = I.run("parse")
     escapes = {}
     for ex in res:
@@ -41,11 +41,26 @@ def _one(args):
         "tries": tries,
         "token_fns": sorted(f"{c}.{m}" for c, m in I.token_fns),
         "skip_helpers": sorted(I.skip_helpers),
+        "lexer_escapes": [list(x) for x in I.lexer_escapes],
+        "lexer_raises": sorted({(x[7], x[8]) for x in I.lexer_exits if x[0] == "raise"}),
         "exits": sorted({(ex[1] if isinstance(ex[1], str) else "TUPLE", ex[4]) for ex in res if ex[0] == "return"}),
     }
 
 
+def lexer_triage(repo):
+    """Triage-table keys for exception sites inside the lexer (so that an
+    infeasible plain ValueError of the lexer does not pollute the parser
+    analysis).  The NotImplementedError of lex_multichar_comments is
+    infeasible iff rule TB3 holds (conditional triage)."""
+    from . import triage, tables
+    keys = {k for k in triage.TABLE if k.startswith("T3|lex")}
+    if not tables.tb3(repo):
+        keys.add(tables.TB3_TRIAGE_KEY)
+    return tuple(sorted(keys))
+
+
 def analyse(repo, lexer_escapes=()):
+    lexer_escapes = lexer_triage(repo)
     key = (repo.root, repo.digest(), tuple(lexer_escapes))
     if key in _CACHE:
         return _CACHE[key]
@@ -88,6 +103,8 @@ def escapes(an):
     of parse() that is not a documented error type."""
     out = {}
     for r in an["results"]:
+        for exc, o in r["lexer_raises"]:
+            out.setdefault((exc, o), []).append(r["config"][0])
         for exc, origins in r["escapes"].items():
             for o in origins:
                 out.setdefault((exc, o), []).append(r["config"][0])
